@@ -388,9 +388,21 @@ pub struct SimCore {
 pub static GLOBAL_LOG_DIGEST: std::sync::atomic::AtomicU64 = std::sync::atomic::AtomicU64::new(0);
 pub static GLOBAL_WORLDS: std::sync::atomic::AtomicU64 = std::sync::atomic::AtomicU64::new(0);
 
+thread_local! {
+    /// When set, every world dropped on this thread appends its operation log here
+    /// (used to put the tail of the log into replay files).
+    pub static LOG_CAPTURE: std::cell::RefCell<Option<Vec<String>>> = const { std::cell::RefCell::new(None) };
+}
+
 impl Drop for SimCore {
     fn drop(&mut self) {
         if let Ok(log) = self.log.lock() {
+            LOG_CAPTURE.with(|c| {
+                if let Some(buf) = c.borrow_mut().as_mut() {
+                    buf.push(format!("--- world with {} operations", log.len()));
+                    buf.extend(log.iter().map(|r| r.line()));
+                }
+            });
             let mut h: u64 = 0x5151;
             for r in log.iter() {
                 h = rng::mix(&[h, r.stable_hash()]);
